@@ -354,23 +354,10 @@ Definition kw (w : str) (s : str) : option str :=
 
 (* order of token(): interpolation (f"..."), date_token, then literal(): based numbers, string, raw string,
    value_and_unit (lex_literal_u below; lex_literal is the same without intervals), number, boolean, null *)
-(* value_and_unit: parse_integer, a unit name, end_expr (not consumed).  A count beyond i64::MAX does not fail:
-   number_str.parse::<i64>().unwrap_or(1) makes it 1 (finding C08-N1-interval-count-overflow) *)
+(* value_and_unit: parse_integer, a unit name, end_expr (not consumed); since fix 8948ad3 a count beyond i64::MAX is not
+   an interval literal (try_map fails; the choice in literal() goes on to number(), and the program is rejected later).
+   Before, number_str.parse::<i64>().unwrap_or(1) made it 1 (finding C08-N1, fixed). *)
 Definition lex_interval (units : list str) (s : str) : option (lit * str) :=
-  match parse_integer s with
-  | None => None
-  | Some (ip, r1) =>
-      match match_unit units r1 with
-      | Some (u, r2) => if end_expr r2 then
-                          let v := base_value 10 (no_us ip) in Some (LInterval (if v <=? I64_MAX then v else 1) u, r2)
-                        else None
-      | None => None
-      end
-  end.
-
-(* PROPOSED, not what the lexer does (fixes/C08-N1-interval-count-overflow.diff): a count beyond i64::MAX is not an
-   interval literal (try_map fails, the choice in literal() goes on to number()) *)
-Definition lex_interval_checked (units : list str) (s : str) : option (lit * str) :=
   match parse_integer s with
   | None => None
   | Some (ip, r1) =>
